@@ -387,6 +387,7 @@ func (s *Sorts) preamble() []string {
 		"(declare-fun errmsg (Int) Str)",
 		"(declare-fun str2i (Str) Int)",
 		"(declare-fun i2str (Int) Str)",
+		"(declare-fun strcontains (Str Str) Bool)",
 		"(declare-fun bitof (Int Int) Int)",
 		"(assert (forall ((x!b Int) (s!b Int)) (! (and (<= 0 (bitof x!b s!b)) (<= (bitof x!b s!b) 1)) :pattern ((bitof x!b s!b)))))",
 	)
@@ -400,6 +401,19 @@ func (s *Sorts) preamble() []string {
 		out = append(out, fmt.Sprintf("(declare-const %s Str) ; %q", n, trunc(l, 60)))
 		out = append(out, fmt.Sprintf("(assert (= (strlen %s) %d))", n, len(l)))
 		out = append(out, fmt.Sprintf("(assert (= (i2str (str2i %s)) %s))", n, n))
+	}
+	// substring facts between literals, for one-character patterns
+	for _, pat := range lits {
+		if len(pat) != 1 {
+			continue
+		}
+		for _, l := range lits {
+			f := fmt.Sprintf("(strcontains %s %s)", s.strLits[l], s.strLits[pat])
+			if !strings.Contains(l, pat) {
+				f = "(not " + f + ")"
+			}
+			out = append(out, "(assert "+f+")")
+		}
 	}
 	if len(lits) > 1 {
 		var ns []string
